@@ -101,14 +101,16 @@ def bare_parser(import_coredefs=False):
     return p
 
 
-def feed(p, defs, imported, ids, mid, hid, cval):
+def feed(p, defs, imported, ids, mid, hid, cval, consts=None):
     """register the definitions as parse_text would: per file, sections in the order constants, aliases, ids, structs, messages"""
     mi = 0
+    if consts is None:
+        consts = sh("consts", [])
     groups = [("/defs/inc/imported.yaml", defs[:imported]), ("/defs/user.yaml", defs[imported:])]
     for path, ds in groups:
         p.current_file = pathlib.Path(path)
         if path.endswith("user.yaml"):
-            for cname, cexpr in sh("consts", []):
+            for cname, cexpr in consts:
                 p.handle_expression(cname, cexpr)
             p.handle_expression("KONST", 5)     # constants are concrete (their texts are the subject); ids are symbolic
             p.handle_string("GREETING", "hello")
@@ -628,6 +630,17 @@ def scenario(which, base, mid, hid, cval):
     imported = sh("imported", 0)
     if sh("kf") and sh("kf") in sh("known", []):
         return True, "descriptor shape of a recorded known finding: excluded (its witness is replayed separately)"
+    prior = sh("prior")
+    if prior:
+        # an earlier, unrelated compilation in the same process (same names, other meanings): whatever a back end keeps at
+        # class or module level from it must not leak into this one.  Concrete ids; its outputs are discarded.
+        with NoTracing():
+            q = bare_parser()
+            try:
+                feed(q, prior["defs"], prior.get("imported", 0), [7001, 7002, 7003], 11, 3, 5, consts=prior.get("consts", []))
+                emit(q)
+            except Exception as e:
+                return False, "the earlier compilation of the same process failed: %s: %s" % (type(e).__name__, e)
     p = bare_parser()
     try:
         feed(p, defs, imported, [i0, i1, i2], mid, hid, cval)
